@@ -697,6 +697,58 @@ def _prot_new_shape(fx, col):
 # --------------------------------------------------------------------------------------------
 # BYPASS inventory
 
+def rule_return_slot(fx, col):
+    """C18: Rust does not drop a function's return value when a destructor of one of its locals / parameters panics while the
+    function is returning (the value has already been moved into the return place, and the cleanup path of that drop does not
+    touch it). A function that answers with something that carries a count or a debt slot (a protection, a guard, an owned
+    pointer) must therefore destroy whatever can run user code BEFORE it moves its answer into the return place — otherwise a
+    panicking pointee destructor (the rejected `new` of a refused compare_and_swap, a by-value `current`) leaks the answer: a
+    borrow slot stays occupied, a count is never given back."""
+    lib = fx.lib
+    def carries(ty):
+        return 'HybridProtection<' in ty or ty.startswith('Guard<') or ty == 'T' or 'Protected' in ty or ty.startswith('std::option::Option<T>')
+    n = 0
+    for b in lib.bodies:
+        if not carries(b.local_ty(0)) or _is_refcnt_impl(b):
+            continue
+        n += 1
+        asg = [(bb, None) for bb in range(b.n) if not b.is_cleanup(bb) for st in b.stmts(bb) if st['k'] == 'assign' and st['dest']['local'] == 0 and not st['dest']['proj']]
+        asg += [(bb, b.term(bb).get('target')) for bb, t in b.calls(include_cleanup=False) if t['dest']['local'] == 0 and not t['dest']['proj']]
+        bad = {}
+        for a, nxt in asg:
+            start = a if nxt is None else nxt
+            if start is None:
+                continue
+            for x in sorted(b.reach_from(start, unwind=False)):
+                if b.is_cleanup(x):
+                    continue
+                t = b.term(x)
+                if x == a and nxt is not None:
+                    continue
+                kind = None
+                if t['k'] == 'drop' and t.get('has_param') and t['place']['local'] != 0:
+                    kind = 'drop of %s' % t['ty']
+                elif t['k'] == 'call' and user_call_kind(t):
+                    kind = user_call_kind(t)
+                if not kind or not isinstance(t.get('unwind'), int):
+                    continue
+                y, seen, drops0 = t['unwind'], set(), False
+                while y is not None and y not in seen:
+                    seen.add(y)
+                    tt = b.term(y)
+                    if tt['k'] == 'drop' and tt['place']['local'] == 0:
+                        drops0 = True
+                    y = tt.get('target') if tt['k'] in ('drop', 'goto') else None
+                if not drops0:
+                    bad[kind] = b.loc(x)
+        for kind, loc in sorted(bad.items()):
+            col.fail('RETURN-SLOT', '%s|%s while returning' % (b.fname, kind),
+                     'the answer (%s) is already in the return place when this runs; if it panics, nothing releases the answer (Rust does not drop the return value on that unwind path)' % b.local_ty(0), loc)
+        if not bad:
+            col.ok('RETURN-SLOT', '%s|nothing user-supplied is destroyed after the answer is in place' % b.fname, 'return type %s' % b.local_ty(0))
+    col.floor('RETURN-SLOT', 'functions answering with a count-carrying value', n, 6)
+
+
 def rule_bypass(fx, col):
     lib = fx.lib
     inv = {'forget': [], 'ptr::read': [], 'ManuallyDrop::new': [], 'ManuallyDrop::drop': [], 'discarded into_ptr': []}
